@@ -6,6 +6,8 @@ stated against `Reamber/Spec/Qua.lean` (`denote`, `quantize`, `closeChart`, `doc
 definitions the harness evaluates on the implementation's output.
 -/
 import Reamber.Lemmas.Qua
+import Reamber.Lemmas.QuaTextLex
+import Reamber.Lemmas.QuaTextStruct
 import Reamber.Generated.QuaTables
 
 namespace Reamber.Qua
@@ -775,3 +777,161 @@ theorem qua_write_read (d : Doc) (c : Chart) (h : read d = .ok c) : (write c >>=
 
 
 end Reamber.Qua
+
+/-! ## the YAML text layer (Model/QuaText.lean)
+
+`emitQua t = some s` says: `t` is a tree of the block dialect whose every key is a plain identifier and whose every
+scalar is in the modelled class — null, bool, int, a float lexeme of the resolver's sub-language, or a string that
+libyaml writes plain or single-quoted on one line (all characters printable, no fold at column 80, resolution decided
+by the modelled part of the resolver) — and `s` is the text written for it.  Outside the class (`none`): strings that
+need double quotes (tab, line break, non-BMP, control characters), strings folded over several lines, plain strings
+that look numeric without being canonical.  The harness compares `emitQua` with `QuaMap.write()` character for
+character on every written case of the class, and `parseQua` with `yaml.safe_load` on every text it accepts. -/
+
+namespace Reamber.QuaText
+
+open Reamber.Osu (Str splitOn joinWith)
+open Reamber.Qua (Doc Chart MetaOk)
+
+/-- well-formed tree: every list of records is non-empty and has no empty record; no mapping repeats a key -/
+def WFTree (t : Tree) : Prop := WF0 t ∧ treeNodup t = true
+
+theorem joinWith_concat_nil (c : Char) : ∀ (ls : List Str), ls ≠ [] → joinWith c (ls ++ [[]]) = joinWith c ls ++ [c]
+  | [], h => absurd rfl h
+  | [p], _ => by simp [joinWith]
+  | p :: q :: ps, _ => by
+    have ih := joinWith_concat_nil c (q :: ps) (by simp)
+    simp only [List.cons_append] at ih ⊢
+    simp [joinWith, ih]
+
+theorem textLines_join (ls : List Str) (hne : ls ≠ []) (h : ∀ l ∈ ls, '\n' ∉ l) :
+    textLines (joinWith '\n' ls ++ ['\n']) = ls := by
+  unfold textLines
+  rw [← joinWith_concat_nil '\n' ls hne, Reamber.Osu.splitOn_joinWith '\n' (ls ++ [[]]) (by simp)]
+  · simp
+  · intro p hp
+    simp only [List.mem_append, List.mem_singleton] at hp
+    rcases hp with hp | rfl
+    · exact h p hp
+    · simp
+
+theorem parseChars_emitChars (t : Tree) (s : Str) (hwf : WFTree t) (h : emitChars t = some s) :
+    parseChars s = some t := by
+  unfold emitChars at h
+  by_cases hte : t.isEmpty = true
+  · simp [hte] at h
+  · simp only [hte] at h
+    have htne : t ≠ [] := by intro e; subst e; simp at hte
+    cases hm : mapO renderLine (emitTree t) with
+    | none => simp [hm] at h
+    | some ls =>
+      simp [hm] at h
+      subst h
+      have hlne : ls ≠ [] := mapO_ne_nil renderLine _ ls hm (emitTree_ne_nil t hwf.1 htne)
+      have hnl : ∀ l ∈ ls, '\n' ∉ l := by
+        intro l hl
+        obtain ⟨L, _, hL⟩ := mapO_mem renderLine _ ls hm l hl
+        exact renderLine_noNewline L l hL
+      have hlex : mapO lexLine ls = some (emitTree t) :=
+        mapO_inverse renderLine lexLine (fun L x hx => lexLine_renderLine L x hx) _ ls hm
+      unfold parseChars
+      rw [textLines_join ls hlne hnl, hlex]
+      simp only [parseTree_emitTree t hwf.1, hwf.2]
+      simp [hte]
+
+/-- **Text round trip** (`_partial`: for the class of scalars `emitQua` accepts, stated above; the full statement
+quantifies over every tree `QuaMap.write` can build, including strings libyaml double-quotes or folds):
+reading back the text written for a well-formed tree of the class gives the tree. -/
+theorem parse_emit_partial (t : Tree) (s : String) (hwf : WFTree t) (h : emitQua t = some s) : parseQua s = some t := by
+  unfold emitQua at h
+  cases he : emitChars t with
+  | none => simp [he] at h
+  | some cs =>
+    simp [he] at h
+    subst h
+    unfold parseQua
+    rw [String.toList_ofList]
+    exact parseChars_emitChars t cs hwf he
+
+/-- the document `yaml.safe_load` hands to `QuaMap.read` for an emitted text is the document the tree denotes -/
+theorem parse_emit_doc (t : Tree) (s : String) (d : Doc) (hwf : WFTree t) (he : emitQua t = some s)
+    (hd : treeDoc t = some d) : (parseQua s).bind treeDoc = some d := by
+  rw [parse_emit_partial t s hwf he]; exact hd
+
+/-- `QuaMap.read(text)` on an emitted text is the tree-level `read` of the document -/
+theorem readText_emit (t : Tree) (s : String) (d : Doc) (hwf : WFTree t) (he : emitQua t = some s)
+    (hd : treeDoc t = some d) : readText s = some (Reamber.Qua.read d) := by
+  unfold readText
+  rw [parse_emit_partial t s hwf he]
+  simp [hd]
+
+/-- **write → text → read.**  `t` is any lexical rendering of the document `write c` builds (`treeDoc t = some d`: its
+float lexemes denote the document's numbers) inside the class; reading the written text gives the chart with every
+time truncated to whole milliseconds. -/
+theorem qua_write_read_text (c : Chart) (d : Doc) (t : Tree) (s : String) (hm : MetaOk c.info)
+    (hw : Reamber.Qua.write c = .ok d) (hwf : WFTree t) (hd : treeDoc t = some d) (he : emitQua t = some s) :
+    readText s = some (.ok (Reamber.Qua.Spec.quantize c)) := by
+  rw [readText_emit t s d hwf he hd]
+  have h1 := Reamber.Qua.qua_read_write c hm
+  rw [hw] at h1
+  simp only [bind, Except.bind] at h1
+  rw [h1]
+
+/-- the written text denotes the chart with every time moved by < 1 ms -/
+theorem qua_write_denotes_text (c : Chart) (d : Doc) (t : Tree) (s : String) (hm : MetaOk c.info)
+    (hk : Reamber.Qua.Spec.ksLists c = true) (hw : Reamber.Qua.write c = .ok d) (hwf : WFTree t)
+    (hd : treeDoc t = some d) (he : emitQua t = some s) :
+    ((parseQua s).bind treeDoc).map Reamber.Qua.Spec.denote = some (.ok (Reamber.Qua.Spec.quantize c)) ∧
+    Reamber.Qua.Spec.closeChart c (Reamber.Qua.Spec.quantize c) = true := by
+  rw [parse_emit_doc t s d hwf he hd]
+  have := Reamber.Qua.qua_write_denotes c d hm hk hw
+  exact ⟨by simp [this.1], this.2⟩
+
+/-- **text → read → write → text → read.**  No hypothesis on the chart beyond having been read from a text of the
+subset. -/
+theorem qua_read_write_text (s : String) (c : Chart) (d' : Doc) (t' : Tree) (s' : String)
+    (hr : readText s = some (.ok c)) (hw : Reamber.Qua.write c = .ok d') (hwf : WFTree t')
+    (hd : treeDoc t' = some d') (he : emitQua t' = some s') :
+    readText s' = some (.ok (Reamber.Qua.Spec.quantize c)) := by
+  rw [readText_emit t' s' d' hwf he hd]
+  unfold readText at hr
+  cases hp : parseQua s with
+  | none => simp [hp] at hr
+  | some t0 =>
+    cases hd0 : treeDoc t0 with
+    | none => simp [hp, hd0] at hr
+    | some d0 =>
+      simp [hp, hd0] at hr
+      have h1 := Reamber.Qua.qua_write_read d0 c hr
+      rw [hw] at h1
+      simp only [bind, Except.bind] at h1
+      rw [h1]
+
+/-! ### non-vacuity: a document with a quoted number-like string, a string with `:` `#` `'`, an empty list, a float,
+a hold-less hit object with a nested key sound -/
+
+def exTree : Tree :=
+  [("Title".toList, .sc (.str "a b".toList)), ("Mode".toList, .sc (.str "123".toList)),
+   ("Artist".toList, .sc (.str "it's: #1".toList)), ("SliderVelocities".toList, .empty),
+   ("TimingPoints".toList, .recs [[("StartTime".toList, .sc (.int 0)), ("Bpm".toList, .sc (.flt "120.5".toList))]]),
+   ("HitObjects".toList, .recs [[("StartTime".toList, .sc (.int 5)), ("Lane".toList, .sc (.int 1)),
+      ("KeySounds".toList, .recs [[("Sample".toList, .int 1), ("Volume".toList, .int 100)]])]])]
+
+theorem exTree_wf : WFTree exTree := by
+  refine ⟨?_, by decide +kernel⟩
+  simp [WF0, WFV, WF1, WF2, exTree]
+  refine ⟨?_, ?_⟩
+  · intro a b h; rcases h with ⟨-, rfl⟩ | ⟨-, rfl⟩ <;> simp
+  · intro a b h; rcases h with ⟨-, rfl⟩ | ⟨-, rfl⟩ | ⟨-, rfl⟩ <;> simp
+
+theorem exTree_text : emitQua exTree =
+    some "Title: a b\nMode: '123'\nArtist: 'it''s: #1'\nSliderVelocities: []\nTimingPoints:\n- StartTime: 0\n  Bpm: 120.5\nHitObjects:\n- StartTime: 5\n  Lane: 1\n  KeySounds:\n  - Sample: 1\n    Volume: 100\n" := by
+  decide +kernel
+
+theorem exTree_doc : (treeDoc exTree).isSome = true := by decide +kernel
+
+/-- non-vacuity of `parse_emit_partial` and of the hypotheses `WFTree` / `emitQua … = some …` / `treeDoc … = some …` -/
+example : parseQua "Title: a b\nMode: '123'\nArtist: 'it''s: #1'\nSliderVelocities: []\nTimingPoints:\n- StartTime: 0\n  Bpm: 120.5\nHitObjects:\n- StartTime: 5\n  Lane: 1\n  KeySounds:\n  - Sample: 1\n    Volume: 100\n" = some exTree :=
+  parse_emit_partial exTree _ exTree_wf exTree_text
+
+end Reamber.QuaText
